@@ -265,6 +265,8 @@ impl Sim {
             "tsi": capv(self.k.ticks_since_idle),
             "nwfi": self.k.waiting_for_idle.len(),
             "nvpr": self.k.vkeys_pending_release.len(),
+            // caps-word: [] or [remaining ticks] (Kanata.tla K.cw)
+            "cw": self.k.caps_word.as_ref().map(|c| vec![c.timeout_ticks]).unwrap_or_default(),
             // chords v2 reports idle (no queued input, no active chord); true without defchordsv2 (C01 diagnosis)
             "chv2i": l.chords_v2.as_ref().map(|c| c.is_idle_chv2()).unwrap_or(true),
             // defseq sequence mode (SeqMode.tla SqProj)
